@@ -609,6 +609,7 @@ impl IsElement<Local> for Local {
     }
 
     unsafe fn finalize(entry: &Entry, guard: &Guard) {
+        vev!(REGISTRY_UNLINK, entry as *const Entry, 0);
         guard.defer_destroy(RawShared::from(Self::element_of(entry) as *const Local));
     }
 }
